@@ -29,8 +29,29 @@ fn run_case(c: &Case, st: &mut Stats, want: bool) -> CaseOut {
     let mut rng = Rng::new(c.seed, "c15-pixels", 0);
     let sn = (c.sw * c.sh) as usize;
     let dn = (c.dw * c.dh) as usize;
-    let spix = canary(&mut rng, sn);
+    let mut spix = canary(&mut rng, sn);
     let dpix = canary(&mut rng, dn);
+    // sources with whole rows of one kind now and then: black at some opacity (colour channels all zero, alpha not),
+    // transparent, one colour throughout, black and transparent mixed - rows a transfer may be tempted to skip or
+    // to treat as a run
+    if c.seed % 5 == 1 && c.sw > 0 {
+        for y in 0..c.sh as usize {
+            let kind = rng.below(8);
+            if kind >= 5 {
+                continue;
+            }
+            let one = canary(&mut rng, 1)[0];
+            for x in 0..c.sw as usize {
+                spix[y * c.sw as usize + x] = match kind {
+                    0 => 0xff000000,
+                    1 => (rng.below(255) as u32 + 1) << 24,
+                    2 => 0,
+                    3 => one,
+                    _ => if rng.chance(0.5) { 0 } else { (rng.below(255) as u32 + 1) << 24 },
+                };
+            }
+        }
+    }
     // (now and then built from a longer, recycled vector: what lies beyond width x height is not part of the surface)
     let mut src = if c.seed % 11 == 4 {
         let mut v = spix.clone();
